@@ -29,6 +29,19 @@ The `radical` stream feeds what the corpora lack: free hydrogen atoms, radicals,
 spectators, free-hydrogen forms of the corpus' H-X cleavages, opened valences), the non-default options of its_to_rsmi, and
 the same queries repeated in another order.
 
+Coverage-gap streams (the documented entry points and options the streams above never took):
+ * `entry`  (graph level): ITSConstruction.construct (defaults node_attrs=None / edge_attrs=None / balance_its=True / store=True) and
+   ITSGraph x every combination of ignore_aromaticity / balance_its / store == model `its.construct` with the same options;
+   pairs with partly overlapping node sets of different sizes (which graph is the base, whose atoms are added); attributes_defaults
+   (typesGH specification evaluated in the harness, the rest against the model); its_decompose(nodes_share=, edges_share=) on an
+   ITS whose attributes are stored under other names == model `its.decompose`;
+ * `route`  (reaction level, gates (i)-(iv)): reactant / product graphs from MolToGraph.mol_to_graph (light-weight, detailed),
+   transform_store().graph, the full profile, rsmi_to_graph(drop_non_aam=False / node_attrs=None); the ITS from construct /
+   ITSGraph with options / rsmi_to_its; the reaction SMILES from graph_to_rsmi(r, p) (no ITS handed over), graph_to_rsmi(r, p, its)
+   and their options; stream (v) on graph_to_rsmi and on an ITS built with store=True;
+ * `explicit-its`: rsmi_to_its(rsmi, explicit_hydrogen=True) must be the ITS of the same reaction with hydrogen counts written as
+   hydrogen atoms (specification evaluated in the harness from the input graphs); runs last.
+
 This module also holds the helpers shared with C02 (encoding, canonical forms, reaction variants,
 synthetic generators).
 """
@@ -417,6 +430,73 @@ def reaction_graphs(rsmi):
     return r, p, None
 
 
+# Other documented ways to the reactant / product graphs of a reaction SMILES (`route["graphs"]`).  What they return beyond the
+# attributes rsmi_to_graph selects by default (partial charges, hybridisation, ring flags ...) is dropped before the graphs
+# are used: C01 speaks about element, aromaticity, hydrogen count, charge, atom map and bond order.
+GRAPH_ENTRIES = [
+    "rsmi_to_graph(drop_non_aam=False)",
+    "rsmi_to_graph(node_attrs=None,edge_attrs=None)",
+    "MolToGraph.mol_to_graph(light_weight=True)",
+    "MolToGraph.mol_to_graph(light_weight=False)",
+    "MolToGraph(...).transform_store(mol).graph",
+    "MolToGraph(attr_profile='full',with_topology=True).transform(mol)",
+]
+
+
+def project(G):
+    X = nx.Graph()
+    for n, d in G.nodes(data=True):
+        X.add_node(n, **{k: d[k] for k in MOL_IN_KEYS if k in d})
+    for u, v, d in G.edges(data=True):
+        X.add_edge(u, v, **{k: d[k] for k in ("order",) if k in d})
+    return X
+
+
+def alt_graphs(rsmi, via):
+    """(r, p) of a fully mapped reaction SMILES through the entry point `via` (same parsing + sanitisation as smiles_to_graph)."""
+    from synkit.IO.chem_converter import rsmi_to_graph
+    from synkit.IO.mol_to_graph import MolToGraph
+    from rdkit import Chem
+    if via == "rsmi_to_graph(drop_non_aam=False)":
+        return rsmi_to_graph(rsmi, drop_non_aam=False)
+    if via == "rsmi_to_graph(node_attrs=None,edge_attrs=None)":
+        r, p = rsmi_to_graph(rsmi, node_attrs=None, edge_attrs=None)
+        return project(r), project(p)
+    out = []
+    for side in rsmi.split(">>"):
+        mol = Chem.MolFromSmiles(side, sanitize=False)
+        Chem.SanitizeMol(mol)
+        if via == "MolToGraph.mol_to_graph(light_weight=True)":
+            g = MolToGraph.mol_to_graph(mol, drop_non_aam=True, light_weight=True, use_index_as_atom_map=True)
+        elif via == "MolToGraph.mol_to_graph(light_weight=False)":
+            g = project(MolToGraph.mol_to_graph(mol, drop_non_aam=True, light_weight=False, use_index_as_atom_map=True))
+        elif via == "MolToGraph(...).transform_store(mol).graph":
+            g = MolToGraph(node_attrs=list(MOL_IN_KEYS), edge_attrs=["order"]).transform_store(
+                mol, drop_non_aam=True, use_index_as_atom_map=True).graph
+        elif via == "MolToGraph(attr_profile='full',with_topology=True).transform(mol)":
+            g = project(MolToGraph(attr_profile="full", with_topology=True).transform(mol, drop_non_aam=True, use_index_as_atom_map=True))
+        else:
+            raise ValueError(via)
+        out.append(g)
+    return out[0], out[1]
+
+
+def write_rsmi(its, r, p, writer, opts):
+    """The reaction SMILES of (r, p) / its ITS through `writer` (`route["writer"]`)."""
+    from synkit.IO.chem_converter import its_to_rsmi, graph_to_rsmi
+    if writer in (None, "its_to_rsmi"):
+        return its_to_rsmi(its, **opts)
+    if writer == "graph_to_rsmi(r,p)":            # no ITS handed over: graph_to_rsmi builds its own
+        return graph_to_rsmi(r, p, **opts)
+    if writer == "graph_to_rsmi(r,p,its)":
+        return graph_to_rsmi(r, p, its, **opts)
+    raise ValueError(writer)
+
+
+def route_tag(rt):
+    return ";".join(f"{k}={how_tag(v) if k == 'its_via' else v}" for k, v in sorted((rt or {}).items())) or "default"
+
+
 PROBE_SELECTIONS = [
     dict(node_attrs=["element", "atom_map"], edge_attrs=[]),
     dict(node_attrs=["element"], edge_attrs=["order"]),
@@ -604,14 +684,63 @@ def malformed_pair(rnd):
 
 
 # ------------------------------------------------------------------ implementation adapters
-def impl_its(G, H):
+# How the ITS of a pair is built (`its_via`, recorded in the case so that a replay takes the same route):
+#   None                                   ITSConstruction.ITSGraph(G, H)                  (balance_its=False, store=False)
+#   {"entry": "ITSGraph", "kw": {...}}     ITSConstruction.ITSGraph(G, H, **kw)
+#   {"entry": "construct", "kw": {...}}    ITSConstruction.construct(G, H, **kw)           (defaults: node_attrs=None, edge_attrs=None,
+#                                                                                             balance_its=True, store=True)
+#   {"entry": "rsmi_to_its", "rsmi": s}    chem_converter.rsmi_to_its(s)                   (reactions only)
+# kw: ignore_aromaticity, balance_its, store, attributes_defaults (a dict of plain values).
+ENTRY_DEFAULTS = {"ITSGraph": {"balance": False, "store": False}, "construct": {"balance": True, "store": True},
+                  "rsmi_to_its": {"balance": False, "store": False}}
+
+
+def model_opts(how):
+    """The options of the Lean model `its.construct` that `how` amounts to (the entry's own defaults + kw)."""
+    how = how or {"entry": "ITSGraph"}
+    o = dict(ENTRY_DEFAULTS[how["entry"]])
+    kw = how.get("kw") or {}
+    o["ignore_arom"] = bool(kw.get("ignore_aromaticity", False))
+    if "balance_its" in kw:
+        o["balance"] = bool(kw["balance_its"])
+    if "store" in kw:
+        o["store"] = bool(kw["store"])
+    return o
+
+
+def how_tag(how):
+    if not how:
+        return "ITSGraph()"
+    kw = how.get("kw") or {}
+    return how["entry"] + "(" + ",".join(f"{k}={'{...}' if isinstance(v, dict) else v}" for k, v in sorted(kw.items())) + ")"
+
+
+def impl_its(G, H, how=None):
     from synkit.Graph.ITS.its_construction import ITSConstruction
-    return ITSConstruction.ITSGraph(G, H)
+    if not how:
+        return ITSConstruction.ITSGraph(G, H)
+    kw = dict(how.get("kw") or {})
+    if how["entry"] == "construct":
+        return ITSConstruction.construct(G, H, **kw)
+    if how["entry"] == "rsmi_to_its":
+        from synkit.IO.chem_converter import rsmi_to_its
+        return rsmi_to_its(how["rsmi"])
+    return ITSConstruction.ITSGraph(G, H, **kw)
 
 
-def impl_decompose(its):
+def impl_decompose(its, keys=None):
+    """`keys` = (nodes_share, edges_share): the ITS is handed over with `typesGH` / `order` stored under these names instead
+    (the documented parameters of its_decompose); the answer must be the same."""
     from synkit.Graph.ITS.its_decompose import its_decompose
-    return its_decompose(its)
+    if not keys:
+        return its_decompose(its)
+    ns, es = keys
+    X = nx.Graph()
+    for n, d in its.nodes(data=True):
+        X.add_node(n, **{(ns if k == "typesGH" else k): v for k, v in d.items()})
+    for u, v, d in its.edges(data=True):
+        X.add_edge(u, v, **{(es if k == "order" else k): x for k, x in d.items()})
+    return its_decompose(X, nodes_share=ns, edges_share=es)
 
 
 def changed_bonds(its):
@@ -621,13 +750,16 @@ def changed_bonds(its):
 # ------------------------------------------------------------------ graph-level stream (i) + (ii)
 def graph_cases(ctx, cases, tag, lossless):
     """cases: list of (G, H, meta).  Compares construct and decompose with the model; with
-    `lossless` also decomposition == input."""
+    `lossless` also decomposition == input.  `meta["its_via"]` names the entry point / options the ITS is built with
+    (see `impl_its`), `meta["decompose_keys"]` the attribute names its_decompose is asked to read."""
     reqs, keep = [], []
     for G, H, meta in cases:
         G0, H0 = enc(G), enc(H)
+        how = (meta or {}).get("its_via")
+        dkeys = (meta or {}).get("decompose_keys")
         try:
-            its = impl_its(G, H)
-            g, h = impl_decompose(its)
+            its = impl_its(G, H, how)
+            g, h = impl_decompose(its, dkeys)
             out = {"its": enc(its), "g": enc(g), "h": enc(h)}
         except Exception as e:
             out = {"error": type(e).__name__}
@@ -635,7 +767,7 @@ def graph_cases(ctx, cases, tag, lossless):
         if enc(G) != G0 or enc(H) != H0:
             ctx.violation("ITSGraph / its_decompose mutated its input graphs", {"G": G0, "H": H0, "meta": meta})
         keep.append((G0, H0, meta, out, its))
-        reqs.append({"cmd": "its.construct", "G": G0, "H": H0})
+        reqs.append({"cmd": "its.construct", "G": G0, "H": H0, **model_opts(how)})
         reqs.append({"cmd": "its.decompose", "its": out["its"] if "its" in out else {"nodes": [], "edges": []}})
     reps = ctx.lean().ok(reqs, shards=8)
     for k, (G0, H0, meta, out, its) in enumerate(keep):
@@ -643,8 +775,11 @@ def graph_cases(ctx, cases, tag, lossless):
             return
         mc, md = reps[2 * k], reps[2 * k + 1]
         case = {"stream": tag, "G": G0, "H": H0, "meta": meta}
+        how = (meta or {}).get("its_via")
+        user_dflt = ((how or {}).get("kw") or {}).get("attributes_defaults")
         nt = its is not None and len(its) >= 3 and changed_bonds(its) >= 1
-        ctx.case([G0, H0], nt, sample={"stream": tag, "G": G0, "H": H0} if len(G0["nodes"]) <= 3 else None)
+        ctx.case([G0, H0] + ([how_tag(how), (meta or {}).get("decompose_keys")] if how or (meta or {}).get("decompose_keys") else []), nt,
+                 sample={"stream": tag, "G": G0, "H": H0} if len(G0["nodes"]) <= 3 else None)
         ctx.count(f"{tag}:cases")
         if its is not None:
             ctx.count(f"{tag}:changed_bonds={min(changed_bonds(its), 4)}")
@@ -654,13 +789,25 @@ def graph_cases(ctx, cases, tag, lossless):
                               {"impl": out.get("error"), "model": mc.get("error")}, no_input=True)
             ctx.count(f"{tag}:error")
             continue
-        a, b = canon(out["its"], ITS_NODE_KEYS, ITS_EDGE_KEYS), canon(mc["graph"], ITS_NODE_KEYS, ITS_EDGE_KEYS)
-        if a != b:
-            spec = ctx.lean().ok([{"cmd": "spec.its.union", "G": G0, "H": H0, "its": out["its"]}])[0]
-            ctx.violation("ITS graph differs from the proven model (union of atoms/bonds, typesGH, order pair, difference)",
-                          shrink_pair(ctx, case, "construct"), {"diff": first_diff(a, b), "spec_union_holds": spec},
-                          no_input=bool(spec) and typesgh_ok(out["its"], G0, H0))
-            continue
+        if user_dflt is not None:
+            # attributes_defaults: the model has the built-in defaults only.  Node set, carried atom_map and all of the edges are
+            # compared with the model; typesGH and the per-attribute entries with the specification computed right here.
+            nkeys = ["atom_map"]
+            a, b = canon(out["its"], nkeys, ITS_EDGE_KEYS), canon(mc["graph"], nkeys, ITS_EDGE_KEYS)
+            tg_ok = typesgh_ok(out["its"], G0, H0, user_dflt, model_opts(how)["store"])
+            if a != b or not tg_ok:
+                ctx.violation("ITS graph built with attributes_defaults differs from the specification (model for nodes / bonds / order pair / "
+                              "difference; typesGH = (G label, H label) with the caller's defaults for what is missing)", case,
+                              {"diff": first_diff(a, b) if a != b else "typesGH / per-attribute entries", "its_via": how_tag(how)})
+                continue
+        else:
+            a, b = canon(out["its"], ITS_NODE_KEYS, ITS_EDGE_KEYS), canon(mc["graph"], ITS_NODE_KEYS, ITS_EDGE_KEYS)
+            if a != b:
+                spec = ctx.lean().ok([{"cmd": "spec.its.union", "G": G0, "H": H0, "its": out["its"]}])[0]
+                ctx.violation("ITS graph differs from the proven model (union of atoms/bonds, typesGH, order pair, difference)",
+                              shrink_pair(ctx, case, "construct"), {"diff": first_diff(a, b), "spec_union_holds": spec, "its_via": how_tag(how)},
+                              no_input=bool(spec) and typesgh_ok(out["its"], G0, H0, None, model_opts(how)["store"]))
+                continue
         if "error" in md:
             ctx.violation("its_decompose returns where the model is undefined", case, no_input=True)
             continue
@@ -678,15 +825,25 @@ def graph_cases(ctx, cases, tag, lossless):
             return
 
 
-def typesgh_ok(its_j, G0, H0):
-    """typesGH of the implementation's ITS == the (G label, H label) pair, computed here directly."""
-    dflt = {"element": {"s": "*"}, "aromatic": {"b": False}, "hcount": {"n": 0}, "charge": {"n": 0},
-            "neighbors": {"t": [{"s": ""}, {"s": ""}]}}
+CORE_DEFAULTS = {"element": "*", "aromatic": False, "hcount": 0, "charge": 0, "neighbors": ["", ""]}
+
+
+def typesgh_ok(its_j, G0, H0, user_dflt=None, store=False):
+    """typesGH of the implementation's ITS == the (G label, H label) pair, computed here directly (a label entry that a side
+    lacks - attribute or whole node - is the caller's default if given, else the built-in one); the per-attribute entries are
+    that pair's components (`store`) or its G component."""
+    keys = ["element", "aromatic", "hcount", "charge", "neighbors"]
+    dflt = {k: graphio.val((user_dflt or {}).get(k, CORE_DEFAULTS[k])) if k in (user_dflt or {}) else graphio.val(CORE_DEFAULTS[k])
+            for k in keys}
     ga, ha = dict((n, a) for n, a in G0["nodes"]), dict((n, a) for n, a in H0["nodes"])
     for n, a in its_j["nodes"]:
-        want = {"t": [{"t": [X.get(n, {}).get(k, dflt[k]) if n in X else dflt[k] for k in dflt]} for X in (ga, ha)]}
-        if a.get("typesGH") != want:
+        halves = [[X[n].get(k, dflt[k]) if n in X else dflt[k] for k in keys] for X in (ga, ha)]
+        if a.get("typesGH") != {"t": [{"t": halves[0]}, {"t": halves[1]}]}:
             return False
+        for i, k in enumerate(keys):
+            want = {"t": [halves[0][i], halves[1][i]]} if store else halves[0][i]
+            if a.get(k) != want:
+                return False
     return True
 
 
@@ -696,14 +853,19 @@ def shrink_pair(ctx, case, what):
     if len(G) > 12 or case.get("stream", "").startswith("corpus"):
         return case
 
+    how = (case.get("meta") or {}).get("its_via")
+    dkeys = (case.get("meta") or {}).get("decompose_keys")
+    if how and how.get("entry") == "rsmi_to_its":
+        return case
+
     def bad(G, H):
         try:
-            its = impl_its(G, H)
-            g, h = impl_decompose(its)
+            its = impl_its(G, H, how)
+            g, h = impl_decompose(its, dkeys)
         except Exception:
             return False
         if what == "construct":
-            m = ctx.lean().ok([{"cmd": "its.construct", "G": enc(G), "H": enc(H)}])[0]
+            m = ctx.lean().ok([{"cmd": "its.construct", "G": enc(G), "H": enc(H), **model_opts(how)}])[0]
             return "graph" in m and canon(enc(its), ITS_NODE_KEYS, ITS_EDGE_KEYS) != canon(m["graph"], ITS_NODE_KEYS, ITS_EDGE_KEYS)
         if what == "decompose":
             m = ctx.lean().ok([{"cmd": "its.decompose", "its": enc(its)}])[0]
@@ -729,14 +891,18 @@ def shrink_pair(ctx, case, what):
 
 
 # ------------------------------------------------------------------ reaction-level stream (i)–(iv)
-def reaction_cases(ctx, items, tag, opts=None):
-    """items: list of (src, idx, kind, rsmi).  `opts`: non-default keyword arguments for `its_to_rsmi`
-    (`explicit_hydrogen`, `sanitize`); recorded in the case so that a replay uses them again."""
-    from synkit.IO.chem_converter import its_to_rsmi, rsmi_to_its
+def reaction_cases(ctx, items, tag, opts=None, route=None):
+    """items: list of (src, idx, kind, rsmi[, route]).  `opts`: non-default keyword arguments for `its_to_rsmi`
+    (`explicit_hydrogen`, `sanitize`); `route`: which documented entry points are taken instead of the default ones -
+    {"graphs": one of GRAPH_ENTRIES, "its_via": see impl_its, "writer": see write_rsmi, "decompose_keys": [node key, edge key]}
+    (an item's own route wins).  Both are recorded in the case so that a replay uses them again."""
+    from synkit.IO.chem_converter import rsmi_to_its
     opts = dict(opts or {})
 
     gcases, iso_reqs, iso_meta = [], [], []
-    for src, idx, kind, rsmi in items:
+    for item in items:
+        src, idx, kind, rsmi = item[:4]
+        rt = dict(item[4]) if len(item) > 4 and item[4] else dict(route or {})
         probed = ctx.rnd.random() < 0.35
         if probed:
             # history probe, part 1: this SMILES is FIRST converted with another attribute selection;
@@ -750,6 +916,9 @@ def reaction_cases(ctx, items, tag, opts=None):
         meta = {"src": src, "idx": idx, "variant": kind, "rsmi": rsmi}
         if opts:
             meta["opts"] = opts
+        if rt:
+            meta["route"] = rt
+            ctx.count(f"{tag}:route:{route_tag(rt)}")
         if probed:
             # history probe, part 2: the same SMILES was converted earlier with a different (lighter or
             # heavier) attribute selection / options; the default conversion must not see any of it
@@ -758,8 +927,28 @@ def reaction_cases(ctx, items, tag, opts=None):
                 ctx.violation("rsmi_to_graph with default options answers differently after the same SMILES was "
                               "converted with another attribute selection (hidden state between calls)", {"stream": tag, **meta})
                 continue
-        gcases.append((r, p, meta))
-        its = impl_its(r, p)
+        if rt.get("graphs"):
+            # the same reaction through another documented entry point; the precondition was decided on the default route
+            try:
+                r, p = alt_graphs(rsmi, rt["graphs"])
+                bad = r is None or p is None or set(r.nodes) != set(p.nodes) or len(r) == 0
+            except Exception as e:
+                r, bad = None, type(e).__name__
+            if bad:
+                ctx.violation("a balanced, fully mapped reaction that rsmi_to_graph parses gets no reactant / product graphs through "
+                              + rt["graphs"], {"stream": tag, **meta}, {"why": bad})
+                continue
+        how = rt.get("its_via")
+        if how and how.get("entry") == "rsmi_to_its":
+            how = {"entry": "rsmi_to_its", "rsmi": rsmi}
+        gmeta = dict(meta)
+        if how:
+            gmeta["its_via"] = how
+        if rt.get("decompose_keys"):
+            gmeta["decompose_keys"] = list(rt["decompose_keys"])
+        gcases.append((r, p, gmeta))
+        its = impl_its(r, p, how)
+        stored = model_opts(how)["store"] and rt.get("writer") != "graph_to_rsmi(r,p)"
         # centre atoms decided by the harness itself (never by the implementation under test):
         # end points of bonds whose two orders differ, plus end points of H-H bonds (C02)
         rc = set()
@@ -773,7 +962,7 @@ def reaction_cases(ctx, items, tag, opts=None):
             for u, v in g.edges():
                 if g.nodes[u].get("element") == "H" and g.nodes[v].get("element") == "H":
                     rc.update((u, v))
-        hs = [n for n, d in its.nodes(data=True) if d.get("element") == "H"]
+        hs = [n for n in r.nodes if r.nodes[n].get("element") == "H" or p.nodes[n].get("element") == "H"]
         hs_in, hs_out = [n for n in hs if n in rc], [n for n in hs if n not in rc]
         # its_to_rsmi keeps the centre's hydrogens explicit and, WHEN there is one, folds every other explicit hydrogen THAT IS
         # BONDED TO A HEAVY ATOM into the hydrogen count of that neighbour (not with explicit_hydrogen=True, and not when the
@@ -792,8 +981,16 @@ def reaction_cases(ctx, items, tag, opts=None):
                       + (":other-spectator-hydrogens-folded" if folded else ":nothing-folded"))
         if hs and not folded:
             ctx.count(f"{tag}:rsmi-roundtrips:explicit-hydrogens-all-kept" + (":free-hydrogen-atom" if any(r.degree(n) == 0 or p.degree(n) == 0 for n in hs) else ""))
-        out = its_to_rsmi(its, **opts)
-        ctx.count(f"{tag}:rsmi-roundtrips" + (":folded(unmapped sides only)" if folded else ""))
+        # An ITS built with store=True carries (G value, H value) pairs under `element`; the writer then finds no hydrogen in the
+        # centre and folds nothing.  Whether it should is not C01's business: where folding is possible only the unmapped sides are
+        # gated for such an ITS, whichever way the writer decides.
+        maybe_folded = folded or (stored and bool(hs_in and hs_bound_out) and not opts.get("explicit_hydrogen"))
+        try:
+            out = write_rsmi(its, r, p, rt.get("writer"), opts)
+        except Exception as e:
+            ctx.violation("writing the reaction SMILES of a balanced mapped reaction raises", {"stream": tag, **meta}, {"error": type(e).__name__})
+            continue
+        ctx.count(f"{tag}:rsmi-roundtrips" + (":folded(unmapped sides only)" if maybe_folded else ""))
         if out is None:
             ctx.violation("its_to_rsmi returns None for the ITS of a balanced mapped reaction", {"stream": tag, **meta})
             continue
@@ -803,7 +1000,7 @@ def reaction_cases(ctx, items, tag, opts=None):
             ctx.violation("the reaction SMILES written from the ITS does not parse back", {"stream": tag, **meta}, {"out": out, "error": type(e).__name__})
             continue
         which = None
-        if not folded:      # a folded output has fewer atoms: only its unmapped sides are gated
+        if not maybe_folded:      # a folded output has fewer atoms: only its unmapped sides are gated
             which = len(iso_reqs)
             iso_reqs.append(iso_request(iso_form(its), iso_form(its2)))
         l, r_ = rsmi.split(">>")
@@ -879,12 +1076,12 @@ class RsmiObserver:
         return False
 
 
-def observe_rsmi(its):
-    """-> {"sides": [...], "loose": n, "raised": name|None, "out": str|None}; `its_to_rsmi` itself is the code under test."""
-    from synkit.IO.chem_converter import its_to_rsmi
+def observe_rsmi(its, writer=None, G=None, H=None):
+    """-> {"sides": [...], "loose": n, "raised": name|None, "out": str|None}; `its_to_rsmi` (or, with `writer`, graph_to_rsmi
+    called on the pair itself, see write_rsmi) is the code under test."""
     with RsmiObserver() as obs:
         try:
-            out, raised = its_to_rsmi(its), None
+            out, raised = write_rsmi(its, G, H, writer, {}), None
         except Exception as e:
             out, raised = None, type(e).__name__
     return {"sides": obs.sides, "loose": obs.loose, "raised": raised, "out": out}
@@ -926,13 +1123,19 @@ def rsmi_graph_cases(ctx, cases, tag):
     reqs, keep = [], []
     for G, H, meta in cases:
         G0, H0 = enc(G), enc(H)
+        rt = (meta or {}).get("route") or {}
         try:
-            its = impl_its(G, H)
+            its = impl_its(G, H, rt.get("its_via"))
             its_j = enc(its)
         except Exception:
             ctx.count(f"{tag}:skipped:ITSGraph-raised-or-unencodable")   # the construct stream gates this
             continue
-        obs = observe_rsmi(its)
+        # graph_to_rsmi(r, p) without an ITS builds ITSGraph(r, p) itself: the model runs on that ITS
+        obs = observe_rsmi(its, rt.get("writer"), G, H)
+        if rt.get("writer") == "graph_to_rsmi(r,p)" and rt.get("its_via"):
+            its_j = enc(impl_its(G, H))
+        if rt:
+            ctx.count(f"{tag}:route:{route_tag(rt)}")
         keep.append((G0, H0, meta, its, obs))
         reqs.append({"cmd": "its.rsmiGraphs", "its": its_j})
     reps = ctx.lean().ok(reqs, shards=8)
@@ -960,9 +1163,12 @@ def rsmi_graph_cases(ctx, cases, tag):
         # first: do the round-trip gates of C01 fail on this very input?  then that reaction / pair is the failing input
         before = len(ctx.violations)
         if "rsmi" in case:
-            reaction_cases(ctx, [(case.get("src"), case.get("idx"), case.get("variant"), case["rsmi"])], tag + ":recheck")
+            reaction_cases(ctx, [(case.get("src"), case.get("idx"), case.get("variant"), case["rsmi"])], tag + ":recheck", route=case.get("route"))
         else:
-            graph_cases(ctx, [(graphio.to_nx(G0), graphio.to_nx(H0), meta)], tag + ":recheck", lossless=True)
+            gm = dict(meta or {})
+            if (gm.get("route") or {}).get("its_via"):
+                gm["its_via"] = gm["route"]["its_via"]
+            graph_cases(ctx, [(graphio.to_nx(G0), graphio.to_nx(H0), gm)], tag + ":recheck", lossless=True)
         if len(ctx.violations) > before:
             ctx.violations[-1]["detail"] = {"first_seen_as": d, "detail": ctx.violations[-1].get("detail")}
             continue
@@ -976,13 +1182,16 @@ def shrink_rsmi(ctx, case):
         return case
     G, H = graphio.to_nx(case["G"]), graphio.to_nx(case["H"])
 
+    rt = (case.get("meta") or {}).get("route") or {}
+
     def bad(G, H):
         try:
-            its = impl_its(G, H)
-            m = ctx.lean().ok([{"cmd": "its.rsmiGraphs", "its": enc(its)}])[0]
+            its = impl_its(G, H, rt.get("its_via"))
+            its_m = impl_its(G, H) if rt.get("writer") == "graph_to_rsmi(r,p)" else its
+            m = ctx.lean().ok([{"cmd": "its.rsmiGraphs", "its": enc(its_m)}])[0]
         except Exception:
             return False
-        return "error" not in m and rsmi_graph_diff(observe_rsmi(its), m) is not None
+        return "error" not in m and rsmi_graph_diff(observe_rsmi(its, rt.get("writer"), G, H), m) is not None
 
     changed = True
     while changed and len(G) > 1:
@@ -1151,6 +1360,280 @@ def radical_stream(ctx):
     return cases
 
 
+# ------------------------------------------------------------------ coverage-gap streams: the other documented entry points and options
+def how_grid():
+    """Every (entry, ignore_aromaticity, balance_its, store) combination; an option left out takes the entry's own default
+    (ITSGraph: balance_its=False, store=False; construct: balance_its=True, store=True, node_attrs=None, edge_attrs=None)."""
+    out = []
+    for entry in ("construct", "ITSGraph"):
+        for ia in (None, True):
+            for bal in (None, True, False):
+                for st in (None, True, False):
+                    kw = {}
+                    if ia is not None:
+                        kw["ignore_aromaticity"] = ia
+                    if bal is not None:
+                        kw["balance_its"] = bal
+                    if st is not None:
+                        kw["store"] = st
+                    out.append({"entry": entry, "kw": kw} if kw else {"entry": entry})
+    return out
+
+
+USER_DEFAULTS = [
+    {"element": "X", "hcount": 2, "charge": -1},
+    {"aromatic": True, "neighbors": ["?"], "atom_map": 7},
+    {"element": "R", "aromatic": True, "hcount": 1, "charge": 1, "neighbors": [], "not_a_core_key": 5},
+    {},
+]
+
+
+def unbalanced_pair(rnd):
+    """Partly overlapping node sets of different sizes (each side may have atoms the other lacks): which graph is copied as the
+    base then depends on balance_its, and the other side's own atoms are added from G or from H."""
+    G, H, _ = random_pair(rnd, 8)
+    G, H = G.copy(), H.copy()
+    kg, kh = rnd.choice([(0, 1), (1, 0), (1, 2), (2, 1), (0, 2), (2, 0), (1, 1)])
+    for X, k in ((G, kg), (H, kh)):
+        for n in rnd.sample(sorted(X.nodes), min(k, len(X) - 1)):
+            X.remove_node(n)
+    return G, H, f"drop{kg}G,drop{kh}H"
+
+
+def half_unit_change(G, H):
+    """a bond whose two orders differ by less than one (aromatic <-> single / double): what ignore_aromaticity is about"""
+    for u, v in set(G.edges) | set(H.edges):
+        a = G[u][v].get("order", 0) if G.has_edge(u, v) else 0
+        b = H[u][v].get("order", 0) if H.has_edge(u, v) else 0
+        if isinstance(a, (int, float)) and isinstance(b, (int, float)) and 0 < abs(a - b) < 1:
+            return True
+    return False
+
+
+def entry_stream(ctx):
+    """Graph level: ITSConstruction.construct (the primary entry; ITSGraph is its wrapper) and ITSGraph with every combination of
+    ignore_aromaticity / balance_its / store, attributes_defaults, and its_decompose reading renamed attributes - against the
+    same Lean model (`its.construct` with the options, `its.decompose`) and, for balanced pairs, decomposition == input."""
+    q = ctx.quick
+    grid = how_grid()
+    tag = "entry"
+
+    def with_how(G, H, meta, how, lossless_bucket):
+        m = dict(meta, its_via=how)
+        if ctx.rnd.random() < 0.3:
+            m["decompose_keys"] = ctx.rnd.choice([["tgh", "bond"], ["types", "order"], ["typesGH", "o"]])
+            ctx.count(f"{tag}:its_decompose(nodes_share,edges_share)=renamed")
+        ctx.count(f"{tag}:via:{how_tag(how)}")
+        o = model_opts(how)
+        ctx.count(f"{tag}:effective:ignore_aromaticity={o['ignore_arom']},balance_its={o['balance']},store={o['store']}")
+        if o["ignore_arom"] and half_unit_change(G, H):
+            ctx.count(f"{tag}:ignore_aromaticity=True-with-a-bond-changing-by-less-than-one")
+        lossless_bucket.append((G, H, m))
+
+    bal, unbal = [], []
+    # all pairs on <= 2 shared atoms x a fixed spread of the grid; sampled pairs on 3 atoms x random grid points
+    spread = [grid[i] for i in (0, 2, 5, 9, 13, 18, 20, 22, 27, 31, 35)]
+    for n in (1, 2):
+        for G, H in exhaustive_pairs(n, True):
+            for how in spread:
+                with_how(G, H, {"n": n}, how, bal)
+    all3 = list(exhaustive_pairs(3, True))
+    for G, H in ctx.rnd.sample(all3, 250 if q else 4000):
+        with_how(G, H, {"n": 3}, ctx.rnd.choice(grid), bal)
+    for _ in range(350 if q else 5000):
+        G, H, tags = random_pair(ctx.rnd)
+        with_how(G, H, {"edits": tags}, ctx.rnd.choice(grid), bal)
+    graph_cases(ctx, bal, tag + ":balanced", lossless=True)
+    if ctx.violations:
+        return
+    for _ in range(250 if q else 3000):
+        if ctx.rnd.random() < 0.5:
+            G, H, kind = unbalanced_pair(ctx.rnd)
+        else:
+            G, H, kind = malformed_pair(ctx.rnd)
+        ctx.count(f"{tag}:unbalanced:{kind}")
+        if len(G) > len(H) and set(G.nodes) - set(H.nodes):
+            ctx.count(f"{tag}:unbalanced:G-larger-with-own-atoms")
+        if len(H) > len(G) and set(G.nodes) - set(H.nodes):
+            ctx.count(f"{tag}:unbalanced:H-larger-and-G-has-own-atoms")
+        with_how(G, H, {"malformed": kind}, ctx.rnd.choice(grid), unbal)
+    graph_cases(ctx, unbal, tag + ":unbalanced", lossless=False)
+    if ctx.violations:
+        return
+    dfl = []
+    for _ in range(120 if q else 1500):
+        c = ctx.rnd.random()
+        G, H, kind = unbalanced_pair(ctx.rnd) if c < 0.4 else malformed_pair(ctx.rnd) if c < 0.8 else random_pair(ctx.rnd)
+        how = dict(ctx.rnd.choice(grid))
+        how["kw"] = dict(how.get("kw") or {}, attributes_defaults=ctx.rnd.choice(USER_DEFAULTS))
+        ctx.count(f"{tag}:attributes_defaults:" + ",".join(sorted(how["kw"]["attributes_defaults"])))
+        dfl.append((G, H, {"malformed": str(kind), "its_via": how}))
+    graph_cases(ctx, dfl, tag + ":attributes_defaults", lossless=False)
+
+
+def reaction_routes():
+    cons = {"entry": "construct"}
+    return [
+        {"writer": "graph_to_rsmi(r,p)"},
+        {"writer": "graph_to_rsmi(r,p,its)"},
+        {"its_via": cons},
+        {"its_via": cons, "writer": "graph_to_rsmi(r,p,its)"},
+        {"its_via": {"entry": "construct", "kw": {"store": False}}},
+        {"its_via": {"entry": "ITSGraph", "kw": {"store": True}}},
+        {"its_via": {"entry": "ITSGraph", "kw": {"ignore_aromaticity": True}}},
+        {"its_via": {"entry": "construct", "kw": {"ignore_aromaticity": True, "balance_its": False}}},
+        {"its_via": {"entry": "rsmi_to_its"}},
+        {"decompose_keys": ["tgh", "bond"]},
+    ] + [{"graphs": g} for g in GRAPH_ENTRIES] + [
+        {"graphs": "MolToGraph.mol_to_graph(light_weight=True)", "its_via": cons, "writer": "graph_to_rsmi(r,p)"},
+        {"graphs": "MolToGraph.mol_to_graph(light_weight=False)", "writer": "graph_to_rsmi(r,p,its)"},
+    ]
+
+
+def route_stream(ctx):
+    """Reaction level, all gates of `reaction_cases`: the same reactions through the other documented entry points - reactant /
+    product graphs from MolToGraph.mol_to_graph (light-weight and detailed), transform_store, rsmi_to_graph with other
+    selections; the ITS from ITSConstruction.construct / ITSGraph with options / rsmi_to_its; the reaction SMILES from
+    graph_to_rsmi with and without an ITS.  Returns cases for stream (v)."""
+    recs = load_reactions()
+    q = ctx.quick
+    tag = "route"
+    hand = [{"src": "radical-ionic-steps", "idx": i, "rsmi": x} for i, x in enumerate(RADICAL_IONIC_STEPS)]
+    with_h = [r for r in recs if re.search(r"\[H[+-]?:\d+\]", r["rsmi"])]
+    arom = [r for r in recs if re.search(r"\[c|\[n", r["rsmi"])]
+    items = []
+    for rt in reaction_routes():
+        pop = (ctx.rnd.sample(hand, 9 if q else len(hand)) + ctx.rnd.sample(recs, 6 if q else 120)
+               + ctx.rnd.sample(with_h, min(len(with_h), 3 if q else 40)) + ctx.rnd.sample(arom, min(len(arom), 3 if q else 40)))
+        for rec in pop:
+            kind = ctx.rnd.choice(["identity", "identity", "reverse", "renumber_sparse", "spectator_h", "shuffle"])
+            try:
+                v = variant(rec["rsmi"], kind, ctx.rnd)
+            except Exception:
+                v = None
+            if v is None:
+                ctx.count(f"{tag}:variant-not-applicable:{kind}")
+                continue
+            items.append((rec["src"], rec["idx"], kind, v, rt))
+    reaction_cases(ctx, items, tag)
+    if ctx.violations:
+        return []
+    # the writer options on the graph_to_rsmi route
+    for opts in ({"explicit_hydrogen": True}, {"sanitize": False}):
+        its_ = [(r["src"], r["idx"], "identity", r["rsmi"], {"writer": "graph_to_rsmi(r,p)"}) for r in ctx.rnd.sample(hand, 12 if q else len(hand))]
+        its_ += [(r["src"], r["idx"], "identity", r["rsmi"], {"writer": "graph_to_rsmi(r,p)"}) for r in ctx.rnd.sample(recs, 8 if q else 100)]
+        reaction_cases(ctx, its_, tag + ":" + ",".join(f"{k}={v}" for k, v in sorted(opts.items())), opts=opts)
+        if ctx.violations:
+            return []
+    # stream (v) on the routes that change what the writer is handed
+    cases = []
+    vroutes = [{"writer": "graph_to_rsmi(r,p)"}, {"writer": "graph_to_rsmi(r,p,its)"}, {"its_via": {"entry": "construct"}},
+               {"its_via": {"entry": "construct"}, "writer": "graph_to_rsmi(r,p)"}]
+    for src, idx, kind, v, _ in ctx.rnd.sample(items, min(len(items), 80 if q else 1200)):
+        r, p, why = reaction_graphs(v)
+        if why:
+            continue
+        cases.append((r, p, {"src": src, "idx": idx, "variant": kind, "rsmi": v, "route": ctx.rnd.choice(vroutes)}))
+    for _ in range(120 if q else 1500):
+        G, H, tags = random_pair(ctx.rnd)
+        cases.append((G, H, {"edits": tags, "route": ctx.rnd.choice(vroutes)}))
+    all2 = [(G, H) for n in (1, 2) for G, H in exhaustive_pairs(n, True)]
+    for G, H in all2:
+        for rt in vroutes:
+            cases.append((G, H, {"n": len(G), "route": rt}))
+    return cases
+
+
+# rsmi_to_its(rsmi, explicit_hydrogen=True): the ITS of the same reaction with every hydrogen count written as hydrogen atoms
+XH_CLASS = "rsmi_to_its(explicit_hydrogen=True):hydrogen-count-kept-on-one-side-next-to-the-new-hydrogen-atoms"
+XH_TINY = ["[ClH:1]>>[ClH:1]", "[Na+:1].[Cl-:2]>>[Na:1][Cl:2]", "[OH:1][OH:2]>>[OH:1].[OH:2]", "[H:1][H:2]>>[H:1].[H:2]",
+           "[OH-:1].[H+:2]>>[OH:1][H:2]", "[CH3:1][Cl:2].[OH-:3]>>[CH3:1][OH:3].[Cl-:2]"]
+
+
+def explicit_its_spec(r, p, X):
+    """None when the ITS `X` is the ITS of the reaction (r, p) with hydrogen counts turned into hydrogen atoms, decided here from
+    the two input graphs: same heavy skeleton, labels and bond orders on each side; every new atom is a neutral hydrogen with
+    one single bond, the same on both sides, to an original atom; per original atom and side, hydrogen count + new hydrogen
+    neighbours == the input's hydrogen count.  Else (side, description)."""
+    g, h = impl_decompose(X)
+    orig = set(r.nodes)
+    for side, got, want in (("reactant", g, r), ("product", h, p)):
+        if not orig <= set(got.nodes):
+            return side, "atoms of the input are missing"
+        new = set(got.nodes) - orig
+        for n in sorted(new):
+            d = got.nodes[n]
+            nb = list(got.neighbors(n))
+            if d.get("element") != "H" or d.get("charge") != 0 or d.get("hcount") != 0 or len(nb) != 1 or nb[0] not in orig \
+                    or got[n][nb[0]].get("order") != 1:
+                return side, f"new atom {n} is not a neutral hydrogen with one single bond to an atom of the input"
+        for n in sorted(orig):
+            a, b = got.nodes[n], want.nodes[n]
+            if any(a.get(k) != b.get(k) for k in ("element", "aromatic", "charge")):
+                return side, f"label of atom {n} changed"
+            k = sum(1 for m in got.neighbors(n) if m in new)
+            if a.get("hcount") + k != b.get("hcount"):
+                return side, (f"atom {n}: hydrogen count {a.get('hcount')} + {k} new hydrogen atoms != {b.get('hcount')} of the input")
+        e1 = sorted((min(u, v), max(u, v), d.get("order")) for u, v, d in got.edges(data=True) if u in orig and v in orig)
+        e2 = sorted((min(u, v), max(u, v), d.get("order")) for u, v, d in want.edges(data=True))
+        if e1 != e2:
+            return side, "bonds between atoms of the input changed"
+    return None
+
+
+def explicit_its_cases(ctx, items, tag):
+    """items: (src, idx, kind, rsmi).  rsmi_to_its(rsmi, explicit_hydrogen=True) against `explicit_its_spec`, and the reaction
+    SMILES written from it against the input's unmapped sides.  The Lean model has no hydrogen-expansion of an ITS; the
+    specification is evaluated in the harness from the input graphs (see ctx.assumptions)."""
+    from synkit.IO.chem_converter import rsmi_to_its, its_to_rsmi
+    reported = 0
+    for src, idx, kind, rsmi in items:
+        r, p, why = reaction_graphs(rsmi)
+        if why:
+            ctx.count(f"{tag}:skipped:{why}")
+            continue
+        case = {"stream": "explicit-its", "src": src, "idx": idx, "variant": kind, "rsmi": rsmi}
+        nh = sum(d.get("hcount", 0) for _, d in r.nodes(data=True))
+        ctx.case(["explicit-its", enc(r), enc(p)], len(r) >= 3 and nh > 0)
+        ctx.count(f"{tag}:cases:" + ("no-hydrogen-count-anywhere" if nh == 0 and not any(d.get("hcount") for _, d in p.nodes(data=True)) else "with-hydrogen-counts"))
+        try:
+            X = rsmi_to_its(rsmi, explicit_hydrogen=True)
+        except Exception as e:
+            ctx.violation("rsmi_to_its(explicit_hydrogen=True) raises on a balanced mapped reaction", case, {"error": type(e).__name__})
+            continue
+        bad = explicit_its_spec(r, p, X)
+        if bad is not None:
+            ctx.count(f"{tag}:spec-fails:{bad[0]}")
+            if reported < 3:
+                reported += 1
+                out = None
+                try:
+                    out = its_to_rsmi(X)
+                except Exception:
+                    pass
+                ctx.violation("rsmi_to_its(explicit_hydrogen=True) does not return the ITS of the input reaction with its hydrogens made "
+                              "explicit: decomposing it gives another molecule on the " + bad[0] + " side", case,
+                              {"side": bad[0], "why": bad[1], "its_to_rsmi_of_it": out}, classes=[XH_CLASS] if "hydrogen count" in bad[1] else [])
+            continue
+        out = its_to_rsmi(X)
+        l, r_ = rsmi.split(">>")
+        um_in = (unmapped_side(l), unmapped_side(r_))
+        if out is None:
+            ctx.violation("its_to_rsmi returns None for the ITS rsmi_to_its(explicit_hydrogen=True) built", case)
+        elif None not in um_in:
+            lo, ro = out.split(">>")
+            if (unmapped_side(lo), unmapped_side(ro)) != um_in:
+                ctx.violation("its_to_rsmi of rsmi_to_its(explicit_hydrogen=True) has different unmapped reactants/products", case, {"out": out})
+
+
+def explicit_its_stream(ctx):
+    recs = load_reactions()
+    items = [("tiny", i, "identity", x) for i, x in enumerate(XH_TINY)]
+    items += [(r["src"], r["idx"], "identity", r["rsmi"]) for r in ctx.rnd.sample(recs, 10 if ctx.quick else 150)]
+    items += [("radical-ionic-steps", i, "identity", x) for i, x in ctx.rnd.sample(list(enumerate(RADICAL_IONIC_STEPS)), 8 if ctx.quick else 58)]
+    explicit_its_cases(ctx, items, "explicit-its")
+
+
 def load_regress(pid):
     d = ROOT / "regress" / pid
     return [json.loads(f.read_text()) for f in sorted(d.glob("*.json"))] if d.exists() else []
@@ -1160,7 +1643,8 @@ def run_regress(ctx, pid="C01"):
     for c in load_regress(pid):
         c = c.get("case", c)
         if "rsmi" in c:
-            reaction_cases(ctx, [(c.get("src", "regress"), c.get("idx", -1), c.get("variant", "identity"), c["rsmi"])], "regress", opts=c.get("opts"))
+            reaction_cases(ctx, [(c.get("src", "regress"), c.get("idx", -1), c.get("variant", "identity"), c["rsmi"])], "regress", opts=c.get("opts"),
+                           route=c.get("route"))
         else:
             graph_cases(ctx, [(graphio.to_nx(c["G"]), graphio.to_nx(c["H"]), c.get("meta"))], "regress", c.get("lossless", True))
         ctx.count("regress_cases")
@@ -1184,7 +1668,21 @@ def run(ctx):
     ctx.assumptions = ["node ids are the atom-map numbers (rsmi_to_graph defaults); bond orders are multiples of 1/2",
                        "stereo descriptors are not part of the ITS (C01 lists element, aromaticity, hydrogen count, charge, bond order): "
                        "unmapped sides are compared as canonical SMILES without stereo",
-                       "reactions outside C01's precondition (unparseable, unmapped atoms, unequal atom sets) are skipped and counted"]
+                       "reactions outside C01's precondition (unparseable, unmapped atoms, unequal atom sets) are skipped and counted",
+                       "attributes_defaults is not an option of the Lean model: for these cases node set, carried atom_map, bonds, order pair and "
+                       "difference are compared with the model, typesGH and the per-attribute entries with the specification evaluated in the "
+                       "harness (label of each side, the caller's default for what a side lacks)",
+                       "rsmi_to_its(explicit_hydrogen=True) has no Lean model: the returned ITS is judged by a specification evaluated in the harness "
+                       "from the two input graphs (same heavy skeleton and labels per side; every new atom a neutral hydrogen with one single bond, "
+                       "the same on both sides; hydrogen count + new hydrogen neighbours == the input's hydrogen count per atom and side)",
+                       "graphs from MolToGraph.mol_to_graph(light_weight=False), the full profile and node_attrs=None carry more attributes than "
+                       "C01 lists (partial charges, hybridisation ...); they are dropped before the graphs are used",
+                       "an ITS built with store=True has (G value, H value) pairs under `element`; its_to_rsmi then folds no hydrogen. Where folding "
+                       "would be possible only the unmapped sides are gated for such an ITS, whichever way the writer decides",
+                       "not driven, outside C01: its_to_rsmi(clean_wildcards=True) (clean_wc keeps only the longest product fragment by design), "
+                       "rsmi_to_its(core=True) (C02), smart_to_gml / rsmi_to_rsmarts / rsmarts_to_rsmi (C10 / RDKit wrappers), "
+                       "ITSConstruction.construct(node_attrs=other layout) (its_decompose reads the default layout only), the (None, None) / None "
+                       "answers of rsmi_to_graph / graph_to_rsmi on input outside the precondition"]
     ctx.gen_rule = ("regressions first; vendored corpus (ecoli 274, USPTO sample 100, hydrogen set 50) x {identity, dense renumbering, sparse "
                     "renumbering, RDKit re-rooting seeded from the run PRNG, fragment shuffle, reversal} (quick: 45 per variant; thorough: all); "
                     "ALL pairs (G,H) on a shared node set of n<=3 atoms over {C,H} with per-pair orders {0,1,2}^2 (thorough: n<=3 plus a "
@@ -1202,7 +1700,20 @@ def run(ctx):
                     "free_h+free_species+reverse} (quick 20-45 per kind, thorough all x 2-3 draws); the same populations with "
                     "its_to_rsmi(explicit_hydrogen=True), (sanitize=False) and both; a shuffled repeat of 60 (thorough 400) of these queries + the "
                     "hand-written steps with default options after the option runs; stream (v) on the hand-written steps + 120 (thorough 1500) "
-                    "of the variants.")
+                    "of the variants. "
+                    "stream `entry` (graph level, model its.construct with options): all pairs n<=2 x 11 fixed points of the 36-point grid "
+                    "{construct, ITSGraph} x ignore_aromaticity {default, True} x balance_its {default, True, False} x store {default, True, False}; "
+                    "250 (thorough 4000) sampled pairs n=3 and 350 (5000) random molecule-like pairs x a random grid point; 250 (3000) pairs with "
+                    "unequal node sets (half: random pair with 0-2 atoms removed per side, half: the malformed stream) x a random grid point, "
+                    "impl==model only; 120 (1500) pairs (40% unequal, 40% malformed, 20% balanced) x random grid point x attributes_defaults from 4 "
+                    "fixed dicts; 30% of all these with its_decompose reading renamed attributes. "
+                    "stream `route` (reaction level, all gates): 18 routes (writer graph_to_rsmi with / without ITS; ITS via construct defaults, "
+                    "construct(store=False), ITSGraph(store=True), ignore_aromaticity=True, rsmi_to_its; renamed decompose keys; graphs via the 6 "
+                    "other entry points of GRAPH_ENTRIES; 2 composed) x (quick: 9 hand-written steps + 6 corpus + 3 with explicit H + 3 aromatic; "
+                    "thorough: 58 + 120 + 40 + 40) in a random form of {identity x2, reverse, sparse renumbering, explicit-hydrogen spectators, "
+                    "shuffle}; graph_to_rsmi(r,p) with explicit_hydrogen=True and with sanitize=False on 12+8 (58+100) reactions; stream (v) on 80 "
+                    "(1200) of these reactions + 120 (1500) random pairs x a random one of 4 routes + all pairs n<=2 x 4 routes. "
+                    "stream `explicit-its` (last): 6 tiny reactions + 10 (150) corpus + 8 (58) hand-written steps.")
     ctx.nontrivial_rule = "distinct (G,H) as encoded graphs, with >=3 atoms and >=1 bond whose order differs between the sides"
     build_and_audit(ctx, ["SynKitProofs.Props.C01"], "SynKitProofs/Audit/C01.lean", THEOREMS)
 
@@ -1231,12 +1742,19 @@ def run(ctx):
             ctx.count("malformed:" + kind)
             mal.append((G, H, {"malformed": kind}))
         graph_cases(ctx, mal, "malformed", lossless=False)
+    if not ctx.violations:
+        entry_stream(ctx)
     radical_cases = None
     if not ctx.violations:
         radical_cases = radical_stream(ctx)
+    route_cases = None
+    if not ctx.violations:
+        route_cases = route_stream(ctx)
     ok_before = not ctx.violations
     if not ctx.violations:
         rsmi_graph_stream(ctx, radical_cases)
+    if not ctx.violations:
+        rsmi_graph_cases(ctx, route_cases or [], "rsmi-graphs:route")
     ctx.obligation("correspondence: ITSGraph == model construct; its_decompose == model decompose == input pair", ok_before)
     ctx.obligation("correspondence (v): the preserve_atom_maps list and the two graphs the real its_to_rsmi hands to GraphToMol.graph_to_mol "
                    "(observed by wrapping graph_to_smi / implicit_hydrogen / GraphToMol) == model its.rsmiGraphs (SynKitModel/RsmiGraph.lean: "
@@ -1244,21 +1762,28 @@ def run(ctx):
                    "" if ok_before else "not evaluated: an earlier stream already failed")
     ctx.obligation("RDKit part (rests on this run, not proved): ITS(in) iso ITS(its_to_rsmi) by Lean match.iso; unmapped canonical sides equal",
                    ok_before)
+    # last, so that its verdict never hides another stream: the hydrogen-expanded ITS of rsmi_to_its(explicit_hydrogen=True)
+    if not ctx.violations:
+        explicit_its_stream(ctx)
 
 
 def replay(ctx, case):
     quiet()
     c = case["case"]
+    if c.get("stream") == "explicit-its":
+        explicit_its_cases(ctx, [(c.get("src"), c.get("idx"), c.get("variant"), c["rsmi"])], "explicit-its:replay")
+        return
     if str(c.get("stream", "")).startswith("rsmi-graphs"):
         if "rsmi" in c:
             r, p, why = reaction_graphs(c["rsmi"])
             if why is None:
-                rsmi_graph_cases(ctx, [(r, p, {k: c.get(k) for k in ("src", "idx", "variant", "rsmi")})], "rsmi-graphs:replay")
+                rsmi_graph_cases(ctx, [(r, p, {k: c.get(k) for k in ("src", "idx", "variant", "rsmi", "route") if k in c})], "rsmi-graphs:replay")
         else:
             rsmi_graph_cases(ctx, [(graphio.to_nx(c["G"]), graphio.to_nx(c["H"]), c.get("meta"))], "rsmi-graphs:replay")
         return
     if "rsmi" in c:
-        reaction_cases(ctx, [(c.get("src"), c.get("idx"), c.get("variant"), c["rsmi"])], "replay", opts=c.get("opts"))
+        reaction_cases(ctx, [(c.get("src"), c.get("idx"), c.get("variant"), c["rsmi"])], "replay", opts=c.get("opts"), route=c.get("route"))
     else:
+        st = str(c.get("stream", ""))
         graph_cases(ctx, [(graphio.to_nx(c["G"]), graphio.to_nx(c["H"]), c.get("meta"))], "replay",
-                    lossless=c.get("stream") != "malformed")
+                    lossless=not (st == "malformed" or st.startswith("entry:unbalanced") or st.startswith("entry:attributes_defaults")))
